@@ -74,3 +74,74 @@ def walk_own(node):
 
 def names_in(node):
     return {n.id for n in ast.walk(node) if isinstance(n, ast.Name)}
+
+
+def call_binding(call, callee):
+    """callee parameter name -> argument expression for one call site
+    (positional and keyword; *args/**kwargs reported under '*' / '**')."""
+    ps = list(callee.posparams)
+    if callee.selfname is not None:
+        ps = ps[1:]
+    out = {}
+    i = 0
+    for a in call.args:
+        if isinstance(a, ast.Starred):
+            out["*"] = a.value
+            continue
+        if i < len(ps):
+            out[ps[i]] = a
+        else:
+            out["#%d" % i] = a
+        i += 1
+    for k in call.keywords:
+        if k.arg is None:
+            out["**"] = k.value
+        else:
+            out[k.arg] = k.value
+    return out
+
+
+def check_forwarding(ctx, rule, caller, call, callee, expect, what=""):
+    """expect: callee param -> Name id that must be passed unchanged, or a
+    predicate(expr) -> bool.  Parameters not mentioned must be absent."""
+    b = call_binding(call, callee)
+    ok = True
+    for prm, want in expect.items():
+        got = b.get(prm)
+        if callable(want):
+            good = got is not None and want(got)
+        elif want is None:
+            good = got is None
+        else:
+            good = isinstance(got, ast.Name) and got.id == want
+        if good:
+            ctx.inst(rule, caller, call, "%s ← %s%s" % (prm, norm(got) if got is not None else "(default)", what))
+        else:
+            ok = False
+            ctx.viol(rule, caller, call, "argument for `%s` of %s is `%s`; the value %s must be passed on unchanged — the option is "
+                     "dropped, swapped or altered on the way" % (prm, callee.qual, norm(got) if got is not None else "missing",
+                                                                  want if isinstance(want, str) else "required"),
+                     construct="%s → %s: %s=%s" % (caller.qual, callee.qual, prm, norm(got) if got is not None else "missing"))
+    for prm in b:
+        if prm not in expect and not prm.startswith(("*", "#")):
+            ok = False
+            ctx.viol(rule, caller, call, "unexpected argument `%s=%s` for %s" % (prm, norm(b[prm]), callee.qual),
+                     construct="%s → %s: extra %s" % (caller.qual, callee.qual, prm))
+    return ok
+
+
+def find_calls(func, pred):
+    return [n for n in walk_own(func.node) if isinstance(n, ast.Call) and pred(n)]
+
+
+def cfg_nodes_containing(cfg, expr):
+    out = []
+    for cn in cfg.nodes:
+        if cn.kind not in ("stmt", "return", "test", "raisestmt", "assert", "foriter"):
+            continue
+        root = cn.cond if cn.kind == "test" else (cn.ast.iter if cn.kind == "foriter" else cn.ast)
+        for c in ast.walk(root):
+            if c is expr:
+                out.append(cn)
+                break
+    return out
